@@ -68,6 +68,7 @@ type odtW struct {
 	links int
 	lists []*logical.List
 	ntab  int
+	nsect int
 }
 
 // HeadingStyleName returns the paragraph style of a heading authored in the
@@ -107,7 +108,12 @@ func WriteODT(d *logical.Doc, o Options) []byte {
 			if d.HasStyles {
 				style = o.BodyStyle
 			}
-			body.WriteString(w.para("text:p", styleAttr(style), b.Para))
+			px := w.para("text:p", styleAttr(style), b.Para)
+			if b.Wrap == "container" {
+				w.nsect++
+				px = fmt.Sprintf(`<text:section text:name="Section%d">%s</text:section>`, w.nsect, px)
+			}
+			body.WriteString(px)
 		case logical.BHeading:
 			h := b.Heading
 			style := ""
